@@ -384,6 +384,22 @@ pub fn run_c06(rep: &Report) -> i32 {
                         });
                     }
                 }
+                // the convenience entry point `find` (whole haystack)
+                let exp0 = Spec::select(w.kind, occ.iter().copied());
+                let got0 = catch_unwind(AssertUnwindSafe(|| sr.find(h).map(mm)));
+                st.add("searches", 1);
+                if got0.as_ref().ok() != Some(&exp0) {
+                    rep.violation(Violation {
+                        property: rep.property.clone(),
+                        what: "packed-find-mismatch".into(),
+                        case: packed_case(&f.pats, w.kind, w.var, h, 0, h.len(), "find"),
+                        detail: format!(
+                            "{} {} {} {}: find(\"{}\"): got {:?}, SPEC {:?}",
+                            f.name, pats_show(&f.pats), w.kind.name(), vname, json::show(h), got0.map_err(|p| crate::aut::panic_msg(&p)), exp0
+                        ),
+                        tags: vec![("variant".into(), vname.clone()), ("kind".into(), w.kind.name().into())],
+                    });
+                }
                 // iterator on the whole haystack
                 let exp_it = Spec::iter_occ(w.kind, &occ, 0, h.len());
                 let got_it = catch_unwind(AssertUnwindSafe(|| sr.find_iter(h).take(h.len() + 2).map(mm).collect::<Vec<M>>()));
@@ -479,7 +495,11 @@ pub fn replay_packed(case: &J) -> i32 {
         println!("observed: {:?}\nSPEC:     {:?}", got.as_ref().map_err(|p| crate::aut::panic_msg(p)), exp);
         return if got.ok() == Some(exp) { 0 } else { 1 };
     }
-    let got = catch_unwind(AssertUnwindSafe(|| sr.find_in(&h, Span { start: span.0, end: span.1 }).map(mm)));
+    let got = if case.str_of("api") == "find" {
+        catch_unwind(AssertUnwindSafe(|| sr.find(&h).map(mm)))
+    } else {
+        catch_unwind(AssertUnwindSafe(|| sr.find_in(&h, Span { start: span.0, end: span.1 }).map(mm)))
+    };
     let exp = spec.find(kind, &h, span.0, span.1, false);
     println!("observed: {:?}\nSPEC:     {:?}", got.as_ref().map_err(|p| crate::aut::panic_msg(p)), exp);
     if got.ok() == Some(exp) {
